@@ -507,6 +507,135 @@ Section Kinds.
     all: apply bind_notok_l; apply (unify_rejects g sp vt v s5 (base_head b) tv W5); try assumption;
       [eapply head_keep; eassumption|now apply rigid_known|now apply rigid_known].
   Qed.
+
+  (* ---- functions *)
+
+  Lemma type_from_function_spec params rty pure f s fty rt s' :
+    wf s -> type_from_function kinds G (afix f) params rty pure s = Ok ((fty, rt), s') ->
+    wf s' /\ ext s s' /\
+    exists args, head s' fty = Some (HFn args rt (if pure then PPure else PImpure)) /\ length args = length params /\
+                 (forall b tsp, rty = TResolved b tsp -> head s' rt = Some (base_head b)).
+  Proof.
+    intros W H. assert (P : pres (type_from_function kinds G (afix f) params rty pure)) by (eapply pres_type_from_function; [exact PG|apply PA]).
+    destruct (P _ _ _ W H) as [W' E']. split; [assumption|]. split; [assumption|].
+    unfold type_from_function in H.
+    apply bind_inv in H as ([args seen] & s1 & H1 & H).
+    assert (L : forall ps acc s0 r0 s2,
+               foldM (fun (acc : list tyid * genmap) (p : string * N * span * ty) =>
+                        let '(_, var, psp, pty) := p in
+                        vt <- var_ty kinds var;; rt0 <- r_type (afix f) pty (snd acc);;
+                        a <- unify G psp vt (fst rt0);; ret (fst acc ++ [a], snd rt0)) ps acc s0 = Ok (r0, s2) ->
+               length (fst r0) = length (fst acc) + length ps).
+    { induction ps as [|[[[nm var] psp] pty] ps IH]; intros acc s0 r0 s2 Hf; cbn [foldM] in Hf.
+      - injection Hf as <- _. cbn. lia.
+      - apply bind_inv in Hf as (b' & s3 & Hb & Hf). apply IH in Hf. rewrite Hf.
+        apply bind_inv in Hb as (vt & s4 & _ & Hb). apply bind_inv in Hb as (rt0 & s5 & _ & Hb).
+        apply bind_inv in Hb as (a & s6 & _ & Hb). injection Hb as <- _. cbn [fst length]. rewrite app_length. cbn. lia. }
+    apply L in H1 as Hl. cbn [fst length] in Hl.
+    apply bind_inv in H as (rr & s2 & Hr & H). apply bind_inv in H as (fn & s3 & Hp & H). injection H as <- <- <-.
+    rewrite push_type_eq in Hp. injection Hp as <- <-.
+    exists args. split; [apply head_push_new|]. split; [lia|].
+    intros b tsp ->. destruct f as [|f]; [discriminate|]. cbn [Tc.afix astep r_type] in Hr. unfold type_body in Hr.
+    apply bind_inv in Hr as (i & s4 & Hpi & Hr). injection Hr as <- <-. cbn [fst].
+    rewrite push_type_eq in Hpi. injection Hpi as <- <-.
+    assert (X : head (push_st (match b with BVoid => HVoid | BNil => HNil | BUnknown => HUnknown | BInt => HInt
+                                         | BFloat => HFloat | BBool => HBool | BStr => HStr end) s1) (next s1)
+                = Some (base_head b)) by (destruct b; apply head_push_new).
+    unfold head. rewrite lk_push_old by (cbn [push_st next]; lia).
+    unfold head in X. destruct (lk (push_st _ s1) (next s1)) as [n|] eqn:En; [|discriminate].
+    rewrite lk_push_new in En. injection En as <-. cbn [nrep] in *.
+    rewrite lk_push_old by (cbn [push_st next]; lia). exact X.
+  Qed.
+
+  (* the value of a function expression is a function class with as many parameters as the expression has *)
+  Lemma function_yields name params rty body pure fsp f ctx s r s' :
+    wf s -> r_expr (afix f) (EFunction name params rty body pure fsp) ctx s = Ok (r, s') ->
+    wf s' /\ ext s s' /\ exists ps rt p, head s' (snd r) = Some (HFn ps rt p) /\ length ps = length params.
+  Proof.
+    intros W H. destruct (ap_expr _ (PA f) _ _ _ _ _ W H) as [W' E']. split; [assumption|]. split; [assumption|].
+    destruct f as [|f]; [discriminate|]. cbn [Tc.afix astep r_expr] in H. unfold expr_body in H.
+    apply bind_inv in H as ([er ex] & s1 & H1 & H). cbv beta iota in H1.
+    match type of H1 with ?m s = _ => assert (Pm : pres m) by (pose proof (PA f); prs) end.
+    destruct (Pm _ _ _ W H1) as [W1 E1].
+    (* the function type is created first and only extended afterwards *)
+    apply bind_inv in H1 as ([fty rt] & s2 & Ht & H1).
+    destruct (type_from_function_spec _ _ _ _ _ _ _ _ W Ht) as (W2 & E2 & (args & Hf & Hl & _)).
+    match type of H1 with ?m s2 = _ => assert (Pr : pres m) by (pose proof (PA f); prs) end.
+    destruct (Pr _ _ _ W2 H1) as [_ E21].
+    assert (Ex : ex = fty).
+    { cbv zeta in H1. apply bind_inv in H1 as ([ar ir] & s3 & _ & H1). apply bind_inv in H1 as (ar0 & s4 & _ & H1).
+      apply bind_inv in H1 as (u & s5 & _ & H1). apply bind_inv in H1 as (isv & s6 & _ & H1).
+      destruct (isv && negb (is_void_ty rty)); [discriminate|].
+      apply bind_inv in H1 as (u' & s7 & _ & H1). now injection H1. }
+    subst ex.
+    destruct E21 as (_ & _ & _ & E4). destruct (E4 _ _ Hf eq_refl) as (h1 & Hh1 & Sh1).
+    destruct h1; cbn in Sh1; try discriminate. apply PeanoNat.Nat.eqb_eq in Sh1.
+    rewrite (bind_ok _ _ _ _ _ (find_type_ok _ _ _ Hh1)) in H.
+    apply bind_inv in H as (c & s8 & Hc & H). injection H as <- <-. cbn [snd].
+    destruct (copy_shape _ _ _ _ _ W1 Hc) as (_ & _ & (h & h' & Hh & Hh' & [Sh _])).
+    rewrite Hh1 in Hh. injection Hh as <-. destruct h'; cbn in Sh; try discriminate. apply PeanoNat.Nat.eqb_eq in Sh.
+    do 3 eexists. split; [exact Hh'|]. lia.
+  Qed.
+
+  (* a call with the wrong number of arguments *)
+  Lemma rej_arity name params rty body pure fsp args sp f ctx s :
+    wf s -> length args <> length params ->
+    notok (r_expr (afix f) (ECall (EFunction name params rty body pure fsp) args sp) ctx s).
+  Proof.
+    intros W Hl. destruct f as [|f]; [apply notok_fuel|].
+    cbn [Tc.afix astep r_expr]. unfold expr_body. apply bind_notok_l. cbv beta iota.
+    apply bind_cases; [apply (ap_expr _ (PA _))|assumption|]. intros [r0 fn] s1 H1 W1 E1.
+    destruct (function_yields _ _ _ _ _ _ _ _ _ _ _ W H1) as (_ & _ & (ps & rt & p & Hh & Hlen)). cbn [snd] in Hh.
+    rewrite (bind_ok _ _ _ _ _ (find_type_ok _ _ _ Hh)).
+    destruct (Nat.eqb (length args) (length ps)) eqn:El; [apply PeanoNat.Nat.eqb_eq in El; lia|]. apply notok_fail.
+  Qed.
+
+  (* a returned value contradicting the declared return type: fn ... -> int do ret "a" end *)
+  Lemma rej_ret_type name params b tsp value rsp pure fsp tv f ctx s :
+    wf s -> lit_type value = Some tv -> rigid tv = true -> rigid (base_head b) = true ->
+    same_shape (base_head b) tv = false ->
+    notok (r_expr (afix f) (EFunction name params (TResolved b tsp) [SRet (Some value) rsp] pure fsp) ctx s).
+  Proof.
+    intros W Lv Rv Rb Sh. destruct f as [|f]; [apply notok_fuel|].
+    cbn [Tc.afix astep r_expr]. unfold expr_body. apply bind_notok_l. cbv beta iota.
+    apply bind_cases; [eapply pres_type_from_function; [exact PG|apply PA]|assumption|]. intros [fty rt] s1 H1 W1 E1.
+    destruct (type_from_function_spec _ _ _ _ _ _ _ _ W H1) as (_ & _ & (fargs & _ & _ & Hrt)).
+    specialize (Hrt _ _ eq_refl). cbv zeta.
+    (* the block: one `ret value` *)
+    unfold expression_block. cbn [foldM last_stmt].
+    assert (Blk : forall s0, wf s0 -> head s0 rt = Some (base_head b) ->
+              forall k : (option tyid * option tyid) -> M retn,
+              (forall x s2, wf s2 -> head s2 rt = Some (base_head b) -> head s2 x = Some tv -> notok (k (Some x, None) s2)) ->
+              notok ((x <- (r <- (b' <- (sr <- r_stmt (afix f) (SRet (Some value) rsp) (enter_fn pure ctx);;
+                                              unify_option G fsp None sr);; ret b');; ret (r, @None tyid));; k x) s0)).
+    { intros s0 W0 Hrt0 k Hk.
+      destruct f as [|[|f]]; [do 4 apply bind_notok_l; apply notok_fuel| |].
+      { do 4 apply bind_notok_l. cbn [Tc.afix astep r_stmt]. unfold stmt_body. apply bind_notok_l. apply notok_fuel. }
+      assert (Es : r_stmt (afix (S (S f))) (SRet (Some value) rsp) (enter_fn pure ctx) s0 = Ok (Some (next s0), push_st tv s0)).
+      { cbn [Tc.afix astep r_stmt]. unfold stmt_body.
+        rewrite (bind_ok _ _ _ _ _ (lit_eval kinds G f value tv (enter_fn pure ctx) s0 Lv Rv)). reflexivity. }
+      rewrite (bind_ok _ _ s0 (Some (next s0), @None tyid) (push_st tv s0)).
+      - apply Hk.
+        + destruct (framed_push tv s0 _ _ W0 (push_type_eq _ _)) as [X _]. exact X.
+        + destruct (pres_push tv s0 _ _ W0 (push_type_eq _ _)) as [_ E]. eapply head_keep; eassumption.
+        + apply head_push_new.
+      - rewrite (bind_ok _ _ s0 (Some (next s0)) (push_st tv s0)); [reflexivity|].
+        rewrite (bind_ok _ _ s0 (Some (next s0)) (push_st tv s0)); [reflexivity|].
+        rewrite (bind_ok _ _ _ _ _ Es). reflexivity. }
+    apply Blk; [assumption|assumption|]. intros x s2 W2 Hrt2 Hx.
+    destruct (is_void_ty (TResolved b tsp)) eqn:Iv.
+    - (* declared void: the pushed void does not unify with the value *)
+      apply bind_notok_l.
+      apply bind_cases; [apply pres_push|assumption|]. intros vd s3 H3 W3 E3.
+      destruct (push_spec _ _ _ _ W2 H3) as (_ & _ & Hvd). cbn [unify_option]. apply bind_notok_l.
+      apply (unify_rejects g fsp x vd s3 tv HVoid W3); try reflexivity; try (now apply rigid_known).
+      + eapply head_keep; eassumption.
+      + assumption.
+      + destruct b; try discriminate Iv. cbn in Sh. destruct tv; cbn in Sh |- *; congruence.
+    - cbn [unify_option]. rewrite (bind_ok (ret (Some x)) _ s2 (Some x) s2 eq_refl).
+      apply bind_notok_l. apply bind_notok_l.
+      apply (unify_rejects g fsp rt x s2 (base_head b) tv W2); try assumption; now apply rigid_known.
+  Qed.
 End Kinds.
 
 (* ------------------------------------------------------------------ the kinds as predicates on the filler *)
@@ -544,7 +673,14 @@ Inductive bad_expr : expr -> Prop :=
 (* [1, "a", ..] *)
 | BadHeteroList a b rest sp ta tb :
     lit_type a = Some ta -> lit_type b = Some tb -> rigid ta = true -> rigid tb = true ->
-    same_shape ta tb = false -> bad_expr (ECollection CList (a :: b :: rest) sp).
+    same_shape ta tb = false -> bad_expr (ECollection CList (a :: b :: rest) sp)
+(* a call of a function expression with the wrong number of arguments: (fn a, b do .. end)(1) *)
+| BadArity name params rty body pure fsp args sp :
+    length args <> length params -> bad_expr (ECall (EFunction name params rty body pure fsp) args sp)
+(* a returned value contradicting the declared return type: fn .. -> int do ret "a" end *)
+| BadRetType name params b tsp value rsp pure fsp tv :
+    lit_type value = Some tv -> rigid tv = true -> rigid (base_head b) = true -> same_shape (base_head b) tv = false ->
+    bad_expr (EFunction name params (TResolved b tsp) [SRet (Some value) rsp] pure fsp).
 
 Inductive bad_stmt : stmt -> Prop :=
 | BadExprStmt e sp : bad_expr e -> bad_stmt (SStatementExpression e sp)
@@ -569,6 +705,8 @@ Proof.
   - eapply rej_call_nonfn; eassumption.
   - eapply rej_if_cond; eassumption.
   - eapply rej_hetero_list; eassumption.
+  - eapply rej_arity; eassumption.
+  - eapply rej_ret_type; eassumption.
 Qed.
 
 Theorem bad_stmt_rejected st : bad_stmt st ->
